@@ -388,8 +388,11 @@ Definition dp_invoke (cfg : dp_cfg) (h : dp_hreq -> dp_hresp) (mc : bool) (req :
   let rty := dp_resp_type req in
   match t with
   | TWellKnown =>
-      dp_finish cfg mc req rf false false
-        (mkMsg rty 69 (m_mid req) (m_token req) [(DP_CONTENT_FORMAT, [40])] (c_wk cfg query))
+      (* built-in handler; with a Block2 option in the request it serves the listing block-wise
+         (coap_add_data_blocked_response): C09's subject, outside this model *)
+      if dp_has DP_BLOCK2 (m_opts req) then [EvSkip]
+      else dp_finish cfg mc req rf false false
+             (mkMsg rty 69 (m_mid req) (m_token req) [(DP_CONTENT_FORMAT, [40])] (c_wk cfg query))
   | _ =>
       let early := match t with TProxy _ _ => m_type req =? NR_CON | _ => false end in
       let i := mkHreq (dp_target_rid t) (m_code req) req query in
